@@ -108,7 +108,12 @@ public:
 
 		~DisableQueueNotify()
 		{
-			--queue->queueNotifyCounter;
+			{
+				// The counter is part of the wait predicate: change it under the waiters' mutex,
+				// otherwise a waiter between evaluating the predicate and blocking misses the notify below.
+				std::lock_guard<Mutex> queueListLock(queue->queueListMutex);
+				--queue->queueNotifyCounter;
+			}
 
 			if(queue->doCanNotifyQueueAvailable() && ! queue->emptyQueue()) {
 				queue->queueListConditionVariable.notify_one();
